@@ -138,6 +138,30 @@ def run(prog, rep, tier):
     else:
         r2.fail(uv.name, "set-after-reselect", "the unreachable set is not updated before the tables are re-evaluated", uv.loc())
 
+    # every removed path gives its next hop back for unregistration, whether or not it was eligible: registration happens for
+    # every stored peer path (filtered and next-hop-invalid ones included), so the collection of next hops to unregister
+    # may be conditioned on the removal predicate only
+    n_nh = 0
+    for m in ("drop", "drop_stale", "drop_llgr_stale", "drop_no_llgr"):
+        for kk in prog.with_closures(prog.one(r"rustybgp_table::Table::" + m)):
+            dv = view(prog, kk)
+            dbrs = branches(dv)
+            rend_ = Renderer(dv, depth=8)
+            for bi, t in dv.calls(re.compile(r".*Vec::<T(, A)?>::push$")):
+                if "IpAddr" not in t["f"].get("ga", ""):
+                    continue
+                tgt = rend_.operand(t["args"][0], 8)
+                if "removed_nexthops" not in expr_vars(tgt):
+                    continue
+                n_nh += 1
+                bad = sorted({c.split("::")[-1] for g, l, h in flat_guards(dv, bi, dbrs) for c in expr_calls(g) if re.search(r"RibEntry::(is_filtered|is_nexthop_invalid)$", c)})
+                if bad:
+                    r1.fail("rustybgp_table::Table::" + m, "unregister-only-eligible", "Table::%s hands back a removed path's next hop only when %s: filtered or next-hop-invalid paths were registered too, "
+                            "so their registrations are never released" % (m, " / ".join(bad)), dv.loc(bi))
+                else:
+                    r1.ok("Table::%s: the next hop of every removed path is returned for unregistration" % m)
+    if n_nh < 3:
+        r1.unanalysable("next-hop collection sites in the drop* functions: %d (want >= 3)" % n_nh)
     # every path using a next hop follows its reachability: the flag update visits all entries of a destination
     from ..util import mutating_short_circuit_closures
     uk = prog.one(r"rustybgp_table::Table::update_nexthop_validity")
